@@ -852,9 +852,48 @@ func (g *Gen) doReturn(st *State, r *ssa.Return) {
 			res.Flds = append(res.Flds, g.val(st, x))
 		}
 	}
+	if len(g.spec.Hints) > 0 {
+		henv := g.specEnv(st, g.entry)
+		g.bindResults(henv, sig.Results(), res, g.fn)
+		for _, cl := range g.spec.Hints {
+			for _, part := range splitGoal(g.P.expand(cl.E)) {
+				lb := cl.Name
+				if lb == "" {
+					lb = part.String()
+				}
+				g.oblige("hint", lb, r.Pos(), st.reach, g.evalBool(henv, part))
+			}
+		}
+	}
 	post := st.clone()
 	env0 := g.specEnv(g.entry, g.entry)
 	g.applyUpdates(post, g.entry, env0, g.spec)
+	// bridges: the declared (entry-relative) ghost update equals this expression over the ghost state
+	// reached at the return point; proved per bridge, then available as a rewrite for the postconditions
+	for _, br := range g.spec.Bridges {
+		gf := g.P.ghostVar(br.Ghost)
+		if gf == nil {
+			unsup("bridge of unknown ghost var %s", br.Ghost)
+		}
+		name := "ghost|" + gf.Name
+		benv := g.specEnv(st, g.entry)
+		benv.locals = false
+		g.bindResults(benv, sig.Results(), res, g.fn)
+		var ps, as []string
+		benv.qvars = map[string]bool{}
+		for i, pn := range br.Params {
+			pt := g.P.resolveType(gf.Params[i].Type, g.spec.Pkg)
+			g.n++
+			bn := fmt.Sprintf("q!%s!%d", pn, g.n)
+			benv.vars[pn] = &Val{K: kindOf(pt), T: pt, S: bn}
+			benv.qvars[pn] = true
+			ps = append(ps, fmt.Sprintf("(%s %s)", bn, sortOfKind(kindOf(pt))))
+			as = append(as, bn)
+		}
+		body := g.eval(benv, g.P.expand(br.Body))
+		app := "(" + g.heapSym(post.heap, name) + " " + strings.Join(as, " ") + ")"
+		g.oblige("bridge", br.Ghost, r.Pos(), st.reach, fmt.Sprintf("(forall (%s) (! (= %s %s) :pattern (%s)))", strings.Join(ps, " "), app, body.S, app))
+	}
 	env := g.specEnv(post, g.entry)
 	g.bindResults(env, sig.Results(), res, g.fn)
 	for _, cl := range g.spec.Ensures {
@@ -950,6 +989,15 @@ func (g *Gen) loopFrame(before, head *State, li *loopInfo) {
 			// p existed at function entry: a top-level object below the entry allocation counter, or an
 			// interior/element address whose root object or array did
 			conds := []string{"(or (and (= (inarr p) 0) (< 0 (objroot p)) (< (objroot p) " + g.brk(g.entry) + ")) (and (< 0 (inarr p)) (< (inarr p) " + g.abrk(g.entry) + ")))"}
+			skip := false
+			for _, l := range locs {
+				if l.kind == "fieldall" && (l.hname == name || strings.HasPrefix(name, l.hname+"#")) {
+					skip = true
+				}
+			}
+			if skip {
+				continue
+			}
 			for _, l := range locs {
 				switch l.kind {
 				case "field":
